@@ -89,6 +89,14 @@ func TestC05_P_FileRange(t *testing.T) {
 			t.Fatal(err)
 		}
 		fc.St.ResetLogs()
+		// sometimes the k-th block load of the range read fails once (a transient storage error): whatever the outcome,
+		// a fault is no licence to fetch blocks outside the range
+		faultAt := 0
+		if rapid.IntRange(0, 3).Draw(t, "withFault") == 0 {
+			faultAt = rapid.IntRange(1, len(want)+1).Draw(t, "faultAt")
+			fc.St.FaultKind = genFaultKind(t)
+			fc.St.FailReadAt = faultAt
+		}
 		var got []byte
 		must(t, "lazy range read", func() {
 			var rn datamodel.Node
@@ -107,19 +115,21 @@ func TestC05_P_FileRange(t *testing.T) {
 			got = make([]byte, b-a)
 			_, err = io.ReadFull(rs, got)
 		})
-		if err != nil {
+		fc.St.FailReadAt = 0
+		faulted := faultAt != 0 && err != nil && isInjected(err)
+		if err != nil && !faulted {
 			t.Fatalf("C05 [%s] range [%d,%d): %v", fc.Desc, a, b, err)
 		}
-		if !bytes.Equal(got, fc.Data[a:b]) {
+		if !faulted && !bytes.Equal(got, fc.Data[a:b]) {
 			t.Fatalf("C05 [%s] range [%d,%d): wrong bytes", fc.Desc, a, b)
 		}
 		log := fc.St.ReadLog()
 		if c, ok := subsetOf(log, want); !ok {
-			t.Fatalf("C05 [%s] range [%d,%d): over-fetch of block %s (requested %v, needed %d blocks)", fc.Desc, a, b, c, shortCids(log), len(want))
+			t.Fatalf("C05 [%s] range [%d,%d) (transient fault at load #%d, outcome err=%v): over-fetch of block %s (requested %v, needed %d blocks)", fc.Desc, a, b, faultAt, err, c, shortCids(log), len(want))
 		}
 		gotSet := cidSet(log)
 		for c := range want {
-			if c != fc.Root && !gotSet[c] {
+			if !faulted && c != fc.Root && !gotSet[c] {
 				t.Fatalf("C05 [%s] range [%d,%d): needed block %s was never requested although the bytes were returned", fc.Desc, a, b, c)
 			}
 		}
@@ -177,11 +187,10 @@ func TestC05_P_HamtLookup(t *testing.T) {
 	ev := newEvid(t, c05HamtRule)
 	maxN := scale(300, 2000)
 	rapid.Check(t, func(t *rapid.T) {
-		names, _ := genNames(t, nameOpts{Max: maxN})
+		names, _, fanout := genNamesFanout(t, nameOpts{Max: maxN})
 		if len(names) == 0 {
 			names = []string{"only"}
 		}
-		fanout := genFanout(t)
 		es := make([]entrySpec, len(names))
 		for i, n := range names {
 			es[i] = entryFor(n, 0)
